@@ -557,8 +557,8 @@ fn special_rules(ctx: &Ctx) {
             // identical to the plain string of the concatenation
             let plain = Val::Str(frags.concat());
             if matches!(w, Val::Display(_)) {
-                let a = postcard::to_allocvec(&AsData(&plain)).unwrap();
-                if a != want {
+                let a = trap(|| postcard::to_allocvec(&AsData(&plain)));
+                if a != Ok(Ok(want.clone())) {
                     ctx.violation("collect-str", "plain string differs from spec".into(), m, json!({"value": plain}));
                 }
             }
